@@ -111,7 +111,7 @@ def long_pass(rng, thorough, k):
     n = rng.choice([2, 3, 5, 12]) * six_min + rng.randint(0, 500)
     if not thorough and n > 14000:
         n = rng.choice([4500, 9000])
-    n = min(n, FMT[fmt]["maxlines"] - 600, 30000)
+    n = min(n, FMT[fmt]["maxlines"] - 600, 14000)       # the model's median is an insertion sort (kernel-evaluable), quadratic
     n0 = rng.choice([1, 1, 2, 50, rng.randint(1, six_min // 2)])
     nums = timesgen.line_numbers(rng, n, n0, rng.choice(["none", "small", "mixed"]))
     nums = [x for x in nums if x < min(32000, FMT[fmt]["maxlines"])]
@@ -146,7 +146,7 @@ def long_pass(rng, thorough, k):
 
 
 def check_repair(ctx, tp, info, drv):
-    res = timesgen.real_times(ctx, tp, ctx.rng, direct=bool(info.get("direct")))
+    res = timesgen.real_times(ctx, tp, ctx.rng, direct=bool(info.get("direct")) or len(tp.nums) > 1600)
     payload = dict(tp.describe(), info=info, corrupted=np.nonzero(tp.corrupted)[0].tolist())
     truth = tp.truth.tolist()
     if res["kind"] != "times":
@@ -250,18 +250,18 @@ def check_fallback(ctx, tp, info, drv):
 
 def run(ctx):
     drv = []
-    for k in range(ctx.n(140, 1500)):
+    for k in range(ctx.n(140, 600)):
         tp, info = clean_pass(ctx.rng, ctx.thorough, k)
         info.update(corrupt(ctx.rng, tp))
         check_repair(ctx, tp, info, drv)
         if k < 3:
             ctx.sample({"fmt": tp.fmt, "info": info, "nums": tp.nums[:6]})
-    for k in range(ctx.n(40, 400)):
+    for k in range(ctx.n(40, 70)):
         tp, info = long_pass(ctx.rng, ctx.thorough, k)
         check_repair(ctx, tp, info, drv)
         if k < 2:
             ctx.sample({"fmt": tp.fmt, "info": info, "nums": tp.nums[:6]})
-    for k in range(ctx.n(120, 1200)):
+    for k in range(ctx.n(120, 600)):
         tp, info = fallback_pass(ctx.rng, k)
         check_fallback(ctx, tp, info, drv)
         if k < 2:
